@@ -168,6 +168,7 @@ def saturation_mutagenesis(model, X, args=None, start=0, end=-1, batch_size=32,
 	"""
 
 	y0 = predict(model, X, args=args, device=device)
+	end = end if end >= 0 else X.shape[-1] + 1 + end
 	
 	y_hat = []
 	for i in range(X.shape[0]):
